@@ -7,13 +7,16 @@ BASELINE_OFF = ("cd /repo && cargo nextest run --workspace --no-fail-fast --tool
 
 CHECKS = {
  "C01": dict(
-   technique="TLA+ reference semantics (exact IEEE-754 on a dyadic lattice) enumerated by TLC; every returned state replayed on the real types in 6-8 build configurations",
+   technique="TLA+ reference semantics (exact IEEE-754 on a dyadic lattice) enumerated by TLC and replayed on the real types in 6-8 build configurations; plus TLC trace validation (Trace_Lanes.tla, arbitrary-precision IEEE model IeeeW) of executions recorded on random bit patterns",
    text=("TLC enumerates every call/return state of the element-wise float API over the lattice F1 "
          "(x.25/x.5/x.75 ties, values around 2^22..2^24, 2^31, 2^63, subnormals, extremes, +-0, +-inf, NaN) "
          "with results computed by the Ieee module (integer-only, correctly rounded); each state is replayed "
          "on Vec2/3/3A/4 and DVec2/3/4 in every lane position through every operator spelling in the sse2 "
          "(debug+release), scalar-math, core-simd, +fma/+avx2 and libm builds and compared as IEEE values. "
-         "The oracle itself is cross-checked against the Rust primitive on every lane (disagreement = tool error)."),
+         "The oracle itself is cross-checked against the Rust primitive on every lane (disagreement = tool error). "
+         "In the other direction every operation is executed on random bit patterns in each build, logged with exact operands and "
+         "results, and the log is consumed by TLC (Trace_Lanes.tla): each lane must equal the correctly rounded result computed with "
+         "arbitrary-precision integers (IeeeW.tla, itself checked against Ieee.tla on all 8464 lattice pairs by MC_IeeeW)."),
    note=("Trusted: TLC, the 170-line bit<->(sign,mantissa,exponent) projection in harness/src/fl.rs (self-tested), "
          "the TLA+ Ieee module (validated against the Rust primitives on every replayed lane). Not decided: operand "
          "pairs whose exact result needs >31-bit integers (skipped, counted), exp/powf values, NEON/wasm32."),
@@ -37,7 +40,7 @@ CHECKS = {
    note="Trusted: TLC, token palette, the per-type access-path table (harness/src/acc.rs). Data independence assumed for values outside the palette.",
    ref="5 (C17)"),
  "C13": dict(
-   technique="TLA+ model of Rust integer primitives on unbounded (limb) integers + range rule per family; TLC enumeration; replay in debug and release profiles",
+   technique="TLA+ model of Rust integer primitives on unbounded (limb) integers + range rule per family; TLC enumeration; replay in debug and release profiles; plus TLC trace validation (Trace_Lanes.tla) of executions recorded on random operands",
    text=("IntLane.tla defines every integer primitive as exact mathematics on arbitrary-precision integers (Big.tla, validated by TLC "
          "against native arithmetic) followed by the family's range rule (panic/wrap by profile, None, wrap, saturate; /0 and MIN/-1 "
          "panic always; shifts panic or mask). TLC checks checked/wrapping/saturating/plain coherence, the division identities, the "
@@ -88,7 +91,7 @@ CHECKS = {
    note="Trusted: TLC, harness mask.rs. Hash is required to be a function of the lanes, not byte-identical between BVec3 and BVec3A.",
    ref="5 (C15)"),
  "C14": dict(
-   technique="TLA+ conversion semantics on arbitrary-precision integers and exact IEEE scalars (wrap, saturating truncation, round-to-nearest), TLC enumeration over boundary lattices, replay on all 350 as_ casts / 70 From / 156 TryFrom impls",
+   technique="TLA+ conversion semantics on arbitrary-precision integers and exact IEEE scalars (wrap, saturating truncation, round-to-nearest), TLC enumeration over boundary lattices, replay on all 350 as_ casts / 70 From / 156 TryFrom impls; plus TLC trace validation (Trace_Lanes.tla) of conversions recorded on random values",
    text=("MC_C14 defines `as` (int->int wrap, float->int truncate+saturate with NaN->0, int->float and f64->f32 round to nearest even), "
          "From (must be lossless: range inclusion is a TLC-checked theorem) and TryFrom (Ok iff every lane fits) and enumerates every "
          "ordered scalar pair over lattices made of each type's extremes and every narrower target's boundaries +-1; TLC also checks "
